@@ -52,6 +52,9 @@ PROPOSED_KNOWN = [
              "goroutine is panicking: nextCall's panicked case calls it in place and continues the loop below the panicked frame - "
              "Run crashes with a nil pointer dereference (vm.fn == nil in callNative / `case deferred` / convertPanic) or the caller "
              "is resumed as if the panicking function had returned (statements after the call run, Stop/Fatal/ok outcomes instead of the PanicError)"},
+    {"kind": "known", "signature": {"fam": "panicflow", "cause": "native-defer-while-panicking", "variant": "callback", "got": "hostpanic"},
+     "what": "the same defect inside the nested VM that runs a Scriggo function called back from native code: after the "
+             "directly deferred native call nextCall reaches `case deferred` with vm.fn == nil (nil pointer dereference -> host panic)"},
     {"kind": "known", "signature": {"fam": "panicflow", "cause": "recovered-pop-miscount", "explained": True},
      "what": "after a recover nextCall pops panics until their number equals the number of panicked frames; a frame whose panic was "
              "aborted by a newer panic of one of its deferred calls holds two panics, so an active panic is popped too: "
@@ -89,12 +92,15 @@ def configs(ctx):
 
 def variants(ctx, space="core"):
     """source shapes each program is run in.  The pure control-flow space (defer/panic/recover only, the largest programs) is run
-    as Go functions and as template blocks; everything else in every shape.  (Method declarations are rejected by Scriggo -
+    as Go functions and as template blocks; the core space in four shapes (function literals are covered by the template shape and
+    by the quick tier), the native space and the random programs in every shape.  (Method declarations are rejected by Scriggo -
     'not supported in this release' - so there is no method shape.)"""
     if ctx.quick:
         return ["func", "closure", "template"]
     if space == "flow":
         return ["func", "template"]
+    if space == "core":
+        return ["func", "callback", "template", "tmacro"]
     return ["func", "closure", "callback", "template", "tmacro"]
 
 
@@ -335,7 +341,7 @@ def run(ctx, only_cases=None):
                        model_counterexample=dict(model))
         if not ctx.quick:
             ctx.cov["actions_never_taken"] = r.coverage_zero()
-        extra = ctx.pick(400, 8000)
+        extra = ctx.pick(400, 6000)
     else:
         cases, extra, by_prog = only_cases, 0, {}
     lap("model_check")
